@@ -1923,11 +1923,17 @@ insert_list:
         auto& counter = CURRENT->semaphore_count;
         counter = count;
         DEFER(counter = 0);
+        bool resumed = false;
         while (!try_subtract(count)) {
+            uint64_t cnt;
+            if (unlikely(resumed) && (cnt = m_count.load())) {
+                // we were woken for tokens that somebody else took in the meantime;
+                // before queuing again, pass what is left on to the waiters it covers
+                try_resume(cnt);
+            }
             int ret = waitq::wait_defer(timeout, spinlock_unlock, &splock);
             splock.lock();  // assuming errno NOT changed
             if (unlikely(ret < 0)) {    // got interrupted
-                uint64_t cnt;
                 if (!m_ooo_resume && (cnt = m_count.load())) {
                     auto eno = errno;
                     try_resume(cnt);
@@ -1935,6 +1941,7 @@ insert_list:
                 }
                 return ret;
             }
+            resumed = true;
         }
         return 0;
     }
